@@ -29,6 +29,8 @@ type FuncInfo struct {
 }
 
 type Engine struct {
+	pathMu    sync.Mutex
+	pathIDs   map[string]int // numbering of interior-pointer field paths
 	mutexKeys map[string]bool // heap keys of mutex fields operated on (kept across havoc)
 	repo, verif string
 	fset        *token.FileSet
@@ -95,6 +97,21 @@ func (eng *Engine) newEpoch() string {
 func (eng *Engine) alloc0() string {
 	n := eng.smt.named("ALLOC0", "Int")
 	return n
+}
+
+// pathID numbers field paths (identity of interior pointers).
+func (eng *Engine) pathID(key string) int {
+	eng.pathMu.Lock()
+	defer eng.pathMu.Unlock()
+	if eng.pathIDs == nil {
+		eng.pathIDs = map[string]int{}
+	}
+	if id, ok := eng.pathIDs[key]; ok {
+		return id
+	}
+	id := len(eng.pathIDs) + 1
+	eng.pathIDs[key] = id
+	return id
 }
 
 // interior: the (non-nil) numeric value given to pointers into the middle of an object or to a local.
@@ -1354,7 +1371,45 @@ func (eng *Engine) verifyLemma(lm *Lemma, prop string) (*Obligation, []string) {
 	ex.curClause = "lemma " + lm.Name
 	var g string
 	if lm.Expr != nil {
-		g = ex.eval(st, lm.Expr, sc).S
+		body := lm.Expr
+		// a lemma `forall xs :: P` is proved for fresh constants xs (no binder), so that contracts applied
+		// inside P can contribute their facts about those constants
+		if call, ok := ast.Unparen(body).(*ast.CallExpr); ok {
+			if id, ok := call.Fun.(*ast.Ident); ok && id.Name == "forall" && len(call.Args) == 1 {
+				if lit, ok := call.Args[0].(*ast.FuncLit); ok && len(lit.Body.List) == 1 {
+					okAll := true
+					n := sc
+					var ranges []string
+					for _, f := range lit.Type.Params.List {
+						t := ex.resolveType(f.Type, sc)
+						if t == nil {
+							okAll = false
+							break
+						}
+						sh := eng.sh.shapeOf(t)
+						if !sh.IsLeaf() {
+							okAll = false
+							break
+						}
+						for _, nm := range f.Names {
+							c := eng.smt.fresh("sk_"+nm.Name, sh.Leaf)
+							n = n.with(nm.Name, &Val{Sh: sh, T: t, S: c})
+							if lo, hi, ok := intRange(t); ok {
+								ranges = append(ranges, "(<= "+lo+" "+c+")", "(<= "+c+" "+hi+")")
+							}
+						}
+					}
+					if ret, isRet := lit.Body.List[0].(*ast.ReturnStmt); okAll && isRet && len(ret.Results) == 1 {
+						for _, r := range ranges {
+							st.assume(r)
+						}
+						sc = n
+						body = ret.Results[0]
+					}
+				}
+			}
+		}
+		g = ex.eval(st, body, sc).S
 	} else {
 		g = "true"
 	}
